@@ -1,21 +1,31 @@
 #!/bin/bash
 # Run every seeded change against the checks of the property it breaks (quick tier
 # unless meta.json says the thorough tier is needed) and print one line each.
-ROOT="$(cd "$(dirname "${BASH_SOURCE[0]}")/.." && pwd)"
-cd "$ROOT"
-# work from a snapshot of the simulator sources: edits to sim/src during this
-# (long) run do not disturb it
-mkdir -p "$ROOT/sim/build-seeded"
-rm -rf "$ROOT/sim/build-seeded/src-snapshot"; cp -r "$ROOT/sim/src" "$ROOT/sim/build-seeded/src-snapshot"
-export MOMSIM_SRC="$ROOT/sim/build-seeded/src-snapshot"
-for d in seeded/*/; do
-  n=$(basename "$d"); [ -f "$d/patch.diff" ] || continue
-  case "$n" in silent_*|b05|b16|b17|b18|p05|p16|p17|p18|q16|q17|q18) silent=1;; *) silent=0;; esac
-  if [ "$silent" = 1 ]; then
-    for p in C05 C16 C17 C18; do tools/seeded.sh "$d" quick $p | sed 's/^MISSED/SILENT (as required)/; s/^CAUGHT/FALSE-ALARM/'; done
-    continue
-  fi
-  prop=$(python3 -c "import json;print(json.load(open('$d/meta.json'))['breaks_property'])" 2>/dev/null)
-  tier=quick; [ "$n" = own_racy_noseam ] && tier=thorough
-  if [ "$tier" = thorough ]; then VERIF_RUNS=320 tools/seeded.sh "$d" thorough $prop; else tools/seeded.sh "$d" quick $prop; fi
-done
+# Changes whose meta.json has "breaks": null are property-preserving: all four
+# checks must stay silent on them.
+# (The body is a function so that bash parses the whole file before running it:
+# the script may be edited while a long run is in progress.)
+main() {
+  ROOT="$(cd "$(dirname "${BASH_SOURCE[0]}")/.." && pwd)"
+  cd "$ROOT"
+  # work from a snapshot of the simulator sources and of the runner script: edits
+  # during this (long) run do not disturb it
+  mkdir -p "$ROOT/sim/build-seeded"
+  rm -rf "$ROOT/sim/build-seeded/src-snapshot"; cp -r "$ROOT/sim/src" "$ROOT/sim/build-seeded/src-snapshot"
+  cp "$ROOT/tools/seeded.sh" "$ROOT/sim/build-seeded/seeded-snapshot.sh"
+  export MOMSIM_SRC="$ROOT/sim/build-seeded/src-snapshot"
+  export SEEDED_TOOLS_ROOT="$ROOT"
+  local run="$ROOT/sim/build-seeded/seeded-snapshot.sh"
+  for d in seeded/*/; do
+    n=$(basename "$d"); [ -f "$d/patch.diff" ] || continue
+    silent=$(python3 -c "import json;m=json.load(open('$d/meta.json'));print(1 if ('breaks' in m and m['breaks'] is None) else 0)" 2>/dev/null || echo 0)
+    if [ "$silent" = 1 ]; then
+      for p in C05 C16 C17 C18; do bash "$run" "$d" quick $p | sed 's/^MISSED/SILENT (as required)/; s/^CAUGHT/FALSE-ALARM/'; done
+      continue
+    fi
+    prop=$(python3 -c "import json;print(json.load(open('$d/meta.json'))['breaks_property'])" 2>/dev/null)
+    tier=quick; [ "$n" = own_racy_noseam ] && tier=thorough
+    if [ "$tier" = thorough ]; then VERIF_RUNS=320 bash "$run" "$d" thorough $prop; else bash "$run" "$d" quick $prop; fi
+  done
+}
+main "$@"; exit
